@@ -212,7 +212,7 @@ def perform_history(delta):
 GEO_KINDS = ["CellVolume", "Circumradius", "CellDiameter", "SpatialCoordinate"]
 
 
-SIM_OPS = {"mesh", "const", "vconst", "coef", "vcoef", "tcoef", "mcoef", "qcoef", "scoef", "geo", "index", "idx", "idx2", "comp", "sum", "sub", "prod", "zeromul", "cond", "var", "lit", "neg"}
+SIM_OPS = {"mesh", "const", "vconst", "coef", "vcoef", "tcoef", "mcoef", "qcoef", "scoef", "geo", "index", "idx", "idx2", "comp", "sum", "sub", "prod", "zeromul", "cond", "var", "lit", "neg", "grad", "integ"}
 
 
 def run_script(script, E, sim=None):
